@@ -337,6 +337,17 @@ def rule_uniq1(ctx: Ctx) -> RuleResult:
               how if ok else
               f"prepare_label {'; '.join(lossy[:3])} - and {how}: e.g. the keys \"a-b\" and \"ab\" (or \"fooBar\" and \"foo_bar\") "
               f"of one object both become the same field, the second silently replacing the first", f.node.lineno)
+    # the owner recorded for a label is compared as it is: a truth test (`table.get(label) or name`) takes the marker of a reserved
+    # label (None) and the key "" for 'nobody owns it'
+    for g in base.methods.get("convert_field_name", []):
+        for x in walk_no_nested(g.node):
+            if isinstance(x, ast.BoolOp) and isinstance(x.op, ast.Or) and any(
+                    isinstance(v, (ast.Call, ast.Subscript)) and "self._" in norm(v) and (".get(" in norm(v) or isinstance(v, ast.Subscript))
+                    for v in x.values[:-1]):
+                rr.instances += 1
+                rr.ob(g.relpath, g.qualname, norm(x)[:70], "a label is free only if the table of labels has no entry for it", VIOLATED,
+                      f"`{norm(x)[:50]}`: an entry that is None (a label reserved for a class name) or \"\" (owned by the empty key) counts as "
+                      f"no entry: the field takes the name of the class nested next to it / two keys share one field", x.lineno)
     # overrides go through the base conversion (or hand back the key itself)
     for k in prog.subclasses(base, strict=True):
         for g in k.methods.get("convert_field_name", []):
